@@ -31,12 +31,16 @@ META = {
         "(sparse, repeated inside a job), integer durations 0..9 with many zeros, rules spt/lpt/mwkr/fifo/random (also "
         "upper/mixed case, which the function lower-cases), integer seeds, local_search on/off, max_iter in {1,10,200}; "
         "non-trivial = two jobs share >=2 distinct machines. vrptw_solve: <=7 customers (thorough <=9) with ids 1..n in list "
-        "order, integer coordinates 0..8, demands 0..5, time windows open/wide/tight/closing-before-reachable, service "
+        "order, integer coordinates 0..8 in three geometries (spread / clustered on the depot and on earlier customers / "
+        "'yard' = almost everybody at the depot's own address, giving zero-length routes and exact-zero arrivals), depot "
+        "anywhere in 0..8, demands 0..5, time windows open/wide/tight/closing-before-reachable, service "
         "times 0..3, required_vehicles in {1,2,3}, fleets of 1-4 vehicles given as int+vehicle_capacity or as a Vehicle list "
-        "(capacity inf or 1..8), Customer objects or 8-tuples, default or generated dyadic objective weights, seeds, "
+        "(capacity inf or 1..8), Customer objects or tuples, in ~50% of cases a generated non-default subset of the objective "
+        "keywords distance_weight/vehicle_weight/tw_penalty/capacity_penalty/sync_penalty (vehicle_weight>0 in most sets), seeds, "
         "max_iter in {5,50,300}; non-trivial = >=1 multi-vehicle customer, n>=3, fleet>=2. vrp_operators: "
         "RuleBasedStateMachine from VRPState.from_problem over random/worst/related/route/sync removal and "
-        "greedy/regret/sync-aware insertion with generated degrees, n_routes, k and one random.Random(seed) per step, "
+        "greedy/regret/sync-aware insertion with generated degrees, n_routes, k and one random.Random(seed) per step, plus a "
+        "query rule calling vrp_objective(state, **generated keywords incl. unassigned_penalty) against the recomputed sum, "
         "<=30 steps, invariant after every step; non-trivial = the history contains an effective removal after an "
         "effective insertion and the instance has >=1 multi-vehicle customer. Distinct = canonical JSON of the case/history."
     ),
@@ -185,6 +189,11 @@ def problems(draw, tier="quick"):
     nmax = 9 if tier == "thorough" else 7
     n = draw(st.sampled_from([1, 2, 3, 3, 4, 4, 5, 5, 6, 6, 7, 7] + list(range(8, nmax + 1)) * 2))
     coord = st.integers(0, 8)
+    depot = [draw(coord), draw(coord)]
+    # geometry: "spread" = independent points; "clustered" = every customer sits on the depot / on an earlier customer /
+    # on a fresh point with equal weight; "yard" = (almost) everybody at the depot's own address, which yields
+    # zero-length routes, exact-zero arrival times and insertion-cost ties
+    geometry = draw(st.sampled_from(["spread", "clustered", "yard", "spread", "clustered"]))
     multi_rate = draw(st.sampled_from([2, 1, 0, 2, 3]))  # how many of 6 draws are multi-vehicle
     req_choices = [2, 2, 3][:multi_rate] + [1] * (6 - multi_rate)
     custs = []
@@ -200,10 +209,22 @@ def problems(draw, tier="quick"):
             tw = [s, s + draw(st.integers(0, 2))]
         else:  # closes early: unreachable in time whenever the customer is farther than tw_end from the depot
             tw = [0, draw(st.integers(0, 3))]
+        where = "fresh"
+        if geometry == "clustered":
+            where = draw(st.sampled_from(["depot", "earlier", "fresh"]))
+        elif geometry == "yard":
+            where = draw(st.sampled_from(["depot", "depot", "depot", "fresh"]))
+        if where == "depot":
+            x, y = depot
+        elif where == "earlier" and custs:
+            prev = custs[draw(st.integers(0, len(custs) - 1))]
+            x, y = prev["x"], prev["y"]
+        else:
+            x, y = draw(coord), draw(coord)
         custs.append(
             {
-                "x": draw(coord),
-                "y": draw(coord),
+                "x": x,
+                "y": y,
                 "demand": draw(st.integers(0, 5)),
                 "tw": tw,
                 "service": draw(st.sampled_from([0, 0, 1, 2, 3])),
@@ -218,7 +239,7 @@ def problems(draw, tier="quick"):
         caps = [draw(st.integers(1, 8))] * k
     else:
         caps = [draw(st.one_of(st.none(), st.integers(1, 8))) for _ in range(k)]
-    return {"depot": [draw(coord), draw(coord)], "customers": custs, "caps": caps}
+    return {"depot": depot, "customers": custs, "caps": caps}
 
 
 class Model:
@@ -282,9 +303,10 @@ class Model:
             + w["tw_penalty"] * tw
             + w["capacity_penalty"] * cap
             + w["sync_penalty"] * sync
-            + 100000.0 * len(unassigned)
+            + w.get("unassigned_penalty", 100000.0) * len(unassigned)
         )
-        return total, {"distance": dist, "used": used, "tw": tw, "cap": cap, "sync": sync, "unassigned": len(unassigned)}
+        zero_len = sum(1 for r in routes if r and all(self.pts[c] == self.pts[0] for c in r))
+        return total, {"zero_length_routes": zero_len, "distance": dist, "used": used, "tw": tw, "cap": cap, "sync": sync, "unassigned": len(unassigned)}
 
 
 DEFAULT_W = {"distance_weight": 1.0, "vehicle_weight": 0.0, "tw_penalty": 1000.0, "capacity_penalty": 1000.0, "sync_penalty": 10000.0}
@@ -362,6 +384,10 @@ def _problem_labels(M: Model, ctx):
         len(set(M.caps)) > 1 and "mixed-capacity",
         any(M.req[c] > len(M.caps) for c in M.ids) and "needs-more-vehicles-than-fleet",
         len(set(M.pts)) < len(M.pts) and "coincident-points",
+        any(M.pts[c] == M.pts[0] for c in M.ids) and "customer-at-depot",
+        len(set(M.pts[1:])) < M.n and "customers-share-a-position",
+        M.pts[0] != (0, 0) and "depot-not-at-origin",
+        any(M.pts[c] == M.pts[0] and M.tw_start[c] == 0 and M.req[c] > 1 for c in M.ids) and "multi-customer-at-depot-arrival-0",
         f"fleet-{len(M.caps)}",
     )
     ctx.size("customers", M.n)
@@ -369,18 +395,31 @@ def _problem_labels(M: Model, ctx):
 
 # ============================================================================= vrptw_solve
 @st.composite
+def weight_sets(draw, with_unassigned):
+    """A subset of the objective keywords with non-default dyadic values (a keyword left out keeps its default)."""
+    choices = {
+        "distance_weight": [2.0, 0.5, 0.0, 3.0],
+        "vehicle_weight": [50.0, 1.0, 10.0, 100.0, 0.5],
+        "tw_penalty": [1.0, 0.0, 10.0, 500.0],
+        "capacity_penalty": [1.0, 0.0, 10.0, 500.0],
+        "sync_penalty": [1.0, 0.0, 10.0, 500.0],
+    }
+    if with_unassigned:
+        choices["unassigned_penalty"] = [1.0, 0.0, 1000.0, 250.0]
+    keys = sorted(choices)
+    chosen = draw(st.lists(st.sampled_from(keys), min_size=1, max_size=len(keys), unique=True))
+    if draw(st.integers(0, 3)) and "vehicle_weight" not in chosen:
+        chosen.append("vehicle_weight")  # the fixed cost per vehicle is off by default: switch it on in most sets
+    return {k: draw(st.sampled_from(choices[k])) for k in sorted(chosen)}
+
+
+@st.composite
 def solve_cases(draw, tier="quick"):
     p = draw(problems(tier))
     uniform = len(set(p["caps"])) == 1
     weights = None
-    if draw(st.integers(0, 9)) >= 6:
-        weights = {
-            "distance_weight": draw(st.sampled_from([0.0, 0.5, 1.0, 2.0])),
-            "vehicle_weight": draw(st.sampled_from([0.0, 1.0, 10.0, 100.0])),
-            "tw_penalty": draw(st.sampled_from([0.0, 1.0, 1000.0])),
-            "capacity_penalty": draw(st.sampled_from([0.0, 1.0, 1000.0])),
-            "sync_penalty": draw(st.sampled_from([0.0, 1.0, 10000.0])),
-        }
+    if draw(st.sampled_from([True, False, True, False, True])):
+        weights = draw(weight_sets(False))
     return {
         "problem": p,
         "fleet_form": draw(st.sampled_from(["int", "list"])) if uniform else "list",
@@ -435,6 +474,9 @@ def run_vrptw_solve(desc, ctx):
         parts["tw"] > 0 and "result-tw-violation",
         parts["sync"] > 0 and "result-sync-violation",
         parts["cap"] > 0 and "result-capacity-violation",
+        parts["zero_length_routes"] and "result-zero-length-route",
+        parts["zero_length_routes"] and w["vehicle_weight"] > 0 and "result-zero-length-route&vehicle_weight>0",
+        w["vehicle_weight"] > 0 and "vehicle_weight>0",
         info["multi_on_2"] and "result-multi-on-2+-routes",
         info["multi_over"] and "multi-on-more-routes-than-required(label-only)",
         not (parts["unassigned"] or parts["tw"] or parts["sync"] or parts["cap"]) and "result-clean",
@@ -478,6 +520,23 @@ class VRPExec:
             self.routed = info["routed"]
             return
         M = self.M
+        if name == "vrp_objective":  # query step: the exported scoring function on the current (already validated) state
+            wkw = a["weights"] or {}
+            got = ctx.call(V.vrp_objective, self.state, **wkw)
+            want, parts = M.objective(self.state.routes, self.state.unassigned, {**DEFAULT_W, **wkw})
+            vw = wkw.get("vehicle_weight", 0.0)
+            ctx.count("steps:vrp_objective")
+            ctx.label(
+                "scored-custom-weights" if wkw else "scored-default-weights",
+                parts["zero_length_routes"] and "scored-zero-length-route",
+                parts["zero_length_routes"] and vw > 0 and "scored-zero-length-route&vehicle_weight>0",
+                parts["tw"] > 0 and "scored-tw-violation",
+                parts["sync"] > 0 and "scored-sync-violation",
+                parts["unassigned"] and "scored-with-unassigned",
+            )
+            if not (isinstance(got, (int, float)) and abs(got - want) <= 1e-6 + 1e-12 * abs(want)):
+                raise Violation("vrp:objective@vrp_objective", {"objective": got, "recomputed": want, "parts": parts, "weights": wkw, "routes": [list(r) for r in self.state.routes], "unassigned": sorted(self.state.unassigned)})
+            return
         fn = getattr(V, name)
         rng = random.Random(a["seed"])
         if name in ("random_removal", "worst_removal", "related_removal"):
@@ -579,6 +638,11 @@ def vrp_machine(ctx, tier):
         @rule(seed=seeds)
         def sync_aware_insertion(self, seed):
             self.step("sync_aware_insertion", seed=seed)
+
+        @precondition(lambda self: self._skip or self.ex.state is not None)
+        @rule(weights=st.one_of(st.none(), weight_sets(True), weight_sets(True)))
+        def vrp_objective(self, weights):
+            self.step("vrp_objective", weights=weights)
 
     return VRPMachine
 
